@@ -26,6 +26,7 @@ import types
 from itertools import zip_longest
 import itertools
 import collections
+import inspect
 from functools import partial
 import typing
 import warnings
@@ -337,9 +338,20 @@ def default_sources(sig, obj):
     return srcs
 
 
+def _annotated_function(obj):
+    """The function whose annotations ``inspect.signature(obj)`` reports:
+    like `inspect.signature`, follows ``__wrapped__`` until an object
+    that carries an explicit ``__signature__``."""
+    try:
+        return inspect.unwrap(obj, stop=lambda f: hasattr(f, '__signature__'))
+    except ValueError:
+        return obj
+
+
 def set_default_sources(sig, obj):
     """Assigns the source of every parameter of sig to obj"""
-    return Signature._upgrade(sig, obj, default_sources(sig, obj))
+    return Signature._upgrade(
+        sig, _annotated_function(obj), default_sources(sig, obj))
 
 
 def signature(obj):
